@@ -311,7 +311,9 @@ def obligations(tier):
                         obs.append(SplitStack(n, axis, m, K, form))
     combos = [((1, 2), ((), (0, 3))), ((2, 1), ((), (1,))),
               ((1, 1, 2), ((), (), (2, 3))), ((2, 2), ((1,), ())),
-              ((1, 1), ((0, 1), ()))]
+              ((1, 1), ((0, 1), ())),
+              # three pieces of unequal length, longest first / in the middle
+              ((2, 1, 1), ((), (1,), ())), ((1, 2, 1), ((), (), (0,)))]
     if tier == 'thorough':
         combos += [((3, 1, 2), ((), (0,), (1, 2))), ((2, 3), ((), (5,)))]
     for lens, masks in combos:
